@@ -892,10 +892,8 @@ def Norm(array: FeArray.FeArrayALike, **kwargs) -> FeArray.FeArrayALike:
     """`np.linalg.norm()` wrapper.\n
     see https://numpy.org/doc/stable/reference/generated/numpy.linalg.norm.html"""
 
+    # on a field np.linalg.norm already returns a field exactly when the (Ne, nPg) axes survive
     res: FeArray.FeArrayALike = np.linalg.norm(array, **kwargs)
-
-    if isinstance(array, FeArray):
-        res = FeArray.asfearray(res)
 
     return res
 
